@@ -53,6 +53,12 @@ func (e *p2pEnv) rangeReply(beh string, o, a uint64, have int) peers.Reply {
 			return peers.Reply{Kind: "notfound"}
 		}
 		return peers.Reply{Kind: "ok", Headers: hs}
+	case "slow": // honest, but the answer takes a while: later sub-ranges overtake this one
+		hs := avail(get(o, a))
+		if len(hs) == 0 {
+			return peers.Reply{Kind: "notfound"}
+		}
+		return peers.Reply{Kind: "ok", Headers: hs, Delay: 45 * time.Millisecond}
 	case "prefix":
 		hs := avail(get(o, a))
 		if arg < len(hs) {
@@ -219,7 +225,7 @@ func (e *p2pEnv) sessionCase(prop string, from, to uint64, chunk uint64, ps []se
 }
 
 var byzantine = []string{"shift:1", "shift:5", "dup", "reorder", "gapped", "forged:0", "forged:1", "wrongchain", "oversized", "status", "garbage", "notfound", "empty", "reset", "hang", "prefix:1", "prefix:2"}
-var benign = []string{"notfound", "prefix:1", "prefix:2", "prefix:3", "hang", "reset", "empty"}
+var benign = []string{"slow", "notfound", "prefix:1", "prefix:2", "prefix:3", "hang", "reset", "empty"}
 
 func runSession(prop, tier string, r *rng) {
 	e := newP2PEnv(5)
@@ -288,6 +294,11 @@ func runSession(prop, tier string, r *rng) {
 			}
 			e.sessionCase(prop, 3, 3+1+amount, chunk, []sessPeer{{have: 120}}, 1500)
 			e.sessionCase(prop, 3, 3+1+amount, chunk, []sessPeer{{have: int(3 + amount/2)}, {have: 120}}, 1500)
+		}
+		// one peer is slow on its first answer: sub-ranges arrive out of order
+		if chunk <= 8 {
+			e.sessionCase(prop, 3, 3+1+3*chunk, chunk, []sessPeer{{have: 120, behs: []string{"slow"}}, {have: 120}}, 1500)
+			e.sessionCase(prop, 3, 3+1+4*chunk, chunk, []sessPeer{{have: 120, behs: []string{"slow"}}, {have: 120}, {have: 120, behs: []string{"honest", "slow"}}}, 1500)
 		}
 	}
 	k := 50
